@@ -10,6 +10,10 @@ CLAIMED = {
          'Lean theorems about the executable model of the notebook differ (multilevel snakes, output/mime/attachment differs) and the independent patcher; the live differ tables are extracted on every run, the similarity heuristics and difflib are recorded oracles, and model and code are compared on generated notebook pairs, fixture pairs and through the nbdiff --out / nbpatch file interface.',
          'Trusted: Lean kernel, axioms {propext, Classical.choice, Quot.sound}, harness codec, oracle contracts K1/K4 (checked on recorded answers), nbformat read/write. Proved so far: sequence-level round trip for every matching; the full recursive statement is stated (C02_roundtrip_statement) and not yet proved, so beyond the sequence level the claim rests on the correspondence runs.',
          '5/C01'),
+ 'C08': ('Lean theorems over any step list of the extracted shape (exit 0 iff no fault and no conflict; output untouched for every fault before the write; never success on a fault) + AST extraction of main_merge / agreed deletion / driver redirection discharged by `decide` + fault-injection correspondence on the real commands',
+         'The run of nbmerge is modelled as a step sequence over a small world (output untouched / truncated / partial / complete / removed; exit status); for ANY step list made of non-mutating steps (including the rc computation) followed by open-output, write, return-rc, Lean proves: no fault => exit status = (1 if conflict else 0) and the complete result at the output; any fault (exception or kill) at any step before the write => output untouched and non-zero exit; any fault anywhere => never exit 0. The step lists of main_merge and _handle_agreed_deletion, the definition of the return code and the driver\'s `out := local` redirection are extracted from the source on every run and checked by generated `decide` obligations. Every single fault (I/O error, MemoryError, KeyboardInterrupt, SIGKILL) is injected at every step boundary (three reads, two diffs, decide, apply, serialise, open, write, remove) of the real nbmerge and git-nbmergedriver over generated triples incl. /dev/null placeholders and empty base files, and exit status / output bytes are compared with the model; fault-free runs are compared with the library merge.',
+         'Partial by nature: a torn write inside one write(2) and OS kill timing are represented by the `partial_` state only (exit != 0 is all that is claimed there); Python\'s mapping of uncaught exceptions/signals to exit statuses and nbformat.write (serialise before open) are inputs. Trusted: Lean kernel, axioms as above, the AST extractor.',
+         '5/C08'),
  'C11': ('decidable WF predicate defined in the Lean model, run by the driver on every diff the implementation produces; jsonschema + JSON round trip; Lean theorems connect WF-shaped diffs with the patcher',
          'The well-formedness notion of the property is a decidable predicate in the Lean model (NbdimeModel.WF); it is evaluated on every diff produced by the generic differ, the notebook differ and inside merge decisions, next to validation against the published diff schema and a JSON round trip.',
          'Trusted: Lean kernel, axioms as above, jsonschema (Draft4) on the repository schema file. The theorem that every diff the *model* differ produces is WF is not yet proved; WF of implementation output is checked per produced diff (bounded by generated cases).',
